@@ -140,3 +140,18 @@ Proof.
   exists p. rewrite (ImpProofsB.imp_DNATo2Bit [] s (dna8_all_bytes s Hs)), H1.
   rewrite (imp_DNAFrom2Bit [] p Hp), H2. split; reflexivity.
 Qed.
+
+(* ---- fastq: write, then read (the Scanner's lines are Base.scan_tokens) ---------------------------------- *)
+From Bio.Model Require Fastq Smtext.
+From Bio.Spec Require FastqSpec.
+From Bio.Proofs Require FastqProofs FastqProofsB ImpProofsK.
+
+Theorem fastq_roundtrip_src rs fuel cur : Forall FastqSpec.fq_ok rs ->
+  (length (scan_tokens (concat (map Fastq.write rs))) + 1 < fuel)%nat ->
+  exists s' out,
+    imp_fastqrd_Reader fuel (Scanner cur (scan_tokens (concat (map Fastq.write rs))) 0 false) = Ret (s', out)
+    /\ Forall2 ImpProofsK.fq_item_ok (map Rec rs) out.
+Proof.
+  intros Hok Hf. destruct (ImpProofsK.imp_fastq_Reader fuel cur _ TEOF Hf) as (s' & out & E & HF).
+  exists s', out. split; [exact E|]. rewrite <- (FastqProofsB.roundtrip rs Hok). exact HF.
+Qed.
